@@ -48,6 +48,11 @@ def configs(tier):
     s = A.to_spec(A._b(crop="potato.2", win="w1", word="wet", soil="Clay"))
     s["iwc"] = None
     C["default_iwc"] = s
+    # several seasons in different calendar years, started ON the planting date (per-year CO2 is written onto the CO2 object)
+    C["multi_at_planting"] = A.to_spec(A._b(crop="maize.2", win={"pre": 0, "seasons": 3}, word="normal"))
+    s = A.to_spec(A._b(crop="cotton.2", win={"pre": 0, "seasons": 2}, word="mix", irr="smt"))
+    s["co2"] = {"table": [[1990, 350.0], [2001, 372.0], [2002, 391.0], [2003, 420.0], [2050, 560.0]]}
+    C["multi_at_planting_co2_table"] = s
     if tier != "quick":
         C["wheat_full"] = A.catalogue_spec("Wheat", word="normal", planting="10/01", start="2001/10/01", end="2002/09/20", irr="smt")
         C["alfalfa_deep"] = A.catalogue_spec("AlfalfaGDD", word="hot", end="2002/04/20")
